@@ -52,6 +52,11 @@ impl<T, I: MRBIterator<Item = T>> Detached<I> {
     fn inner(&self) -> &I {
         &self.inner
     }
+    /// Verification hook: read-only access to the detached iterator.
+    #[cfg(feature = "verif-hooks")]
+    pub fn verif_inner(&self) -> &I {
+        &self.inner
+    }
     fn inner_mut(&mut self) -> &mut I {
         &mut self.inner
     }
